@@ -30,6 +30,8 @@ DEFAULT_W = dict(
     reprovide=0.15,      # provide a key that some scope already provides, in another scope
     reinvoke=0.35,       # invoke an earlier invoker again (same or other scope)
     web=0.04,            # a small web of feeders / consumers / decorators around one value group
+    late=0.04,           # a dependency that is missing at the first Invoke and provided before the retry
+    retry=0.04,          # a constructor / decorator scripted to fail first and succeed on the retry
 )
 
 
@@ -239,8 +241,10 @@ class Gen:
                         opts["as"].append({"iface": 22})
                     opts["opts"].append("as")
         if r.random() < 0.45:
-            pos = r.choice([len(outs), len(outs), 0])
+            pos = r.choice([len(outs), len(outs), 0, r.randrange(0, len(outs) + 1)])
             outs.insert(pos, u(0))
+            if r.random() < 0.1:
+                outs.insert(r.randrange(0, len(outs) + 1), u(0))
         return outs, opts
 
     def new_fn(self, ins, outs, variadic=False, nonfunc=None):
@@ -476,7 +480,7 @@ class Gen:
             if r.random() < 0.5:
                 ins += self.gen_params(None, r.choice([0, 1]), scope=scope)
             if r.random() < 0.4:
-                outs.append(u(0))
+                outs.insert(r.choice([len(outs), len(outs), r.randrange(0, len(outs) + 1)]), u(0))
             fid = self.new_fn(ins, outs)
         self.ops.append({"op": "decorate", "scope": scope, "fn": fid, "cb": self.p("cb"), "info": r.random() < 0.7})
 
@@ -537,6 +541,122 @@ class Gen:
             out.insert(r.randrange(max(1, len(out) // 2), len(out) + 1), iv)
         self.ops.extend(out)
 
+    # ---- "late dependency": something is missing at the first Invoke and is provided before the retry
+    def fresh_key(self):
+        """a (type, name) nothing provides yet"""
+        r = self.r
+        used = {(t, n) for (_, t, n) in self.provided}
+        cands = [(t, n) for t in PT + IF for n in ("", "n1", "n2", "late") if (t, n) not in used]
+        return r.choice(cands) if cands else (r.choice(PT), "late%d" % len(self.fns))
+
+    def single_in(self, t, nm, optional=False):
+        if nm or optional:
+            tags = {}
+            if nm:
+                tags["name"] = nm
+            if optional:
+                tags["optional"] = "true"
+            return self.st([self.in_field(), self.field("F1", u(t), tags)])
+        return u(t)
+
+    def plain_provide(self, scope, ins, t, nm, export=False):
+        fid = self.new_fn(ins, [u(t)] + ([u(0)] if self.r.random() < 0.3 else []))
+        opts = {"name": nm, "group": "", "as": [], "opts": (["name"] if nm else []) + (["export"] if export else [])}
+        self.ops.append({"op": "provide", "scope": scope, "fn": fid, "name": nm, "group": "", "as": [], "export": export,
+                         "cb": self.p("cb"), "info": False, "opts": sorted(set(opts["opts"]))})
+        self.record_results(scope, [u(t)], opts, export, deps_ok=not ins)
+        return fid
+
+    def op_late_dep(self):
+        r = self.r
+        if self.nscopes < self.w["max_scopes"] and (self.nscopes == 1 or r.random() < 0.3):
+            par = r.randrange(0, self.nscopes)
+            self.ops.append({"op": "scope", "parent": par})
+            self.parents.append(par)
+            self.nscopes += 1
+        c = r.randrange(0, self.nscopes) if r.random() < 0.25 else r.randrange(max(0, self.nscopes - 3), self.nscopes)
+        (kt, kn) = self.fresh_key()
+        self.provided.append((c, kt, kn))          # reserve
+        (tt, tn) = self.fresh_key()
+        chain = r.choice([1, 1, 2])
+        export = r.random() < 0.55
+        # A (needs K, possibly through a middle constructor) provides T
+        need = (kt, kn)
+        if chain == 2:
+            (mt, mn) = self.fresh_key()
+            self.plain_provide(c, [self.single_in(kt, kn, optional=r.random() < 0.15)], mt, mn, export=r.random() < 0.3)
+            need = (mt, mn)
+        self.plain_provide(c, [self.single_in(need[0], need[1], optional=r.random() < 0.15)], tt, tn, export=export)
+        below = [s for s in range(self.nscopes) if c in self.anc(s)]
+        isc = r.choice(below) if (not export or r.random() < 0.6) else r.randrange(0, self.nscopes)
+        cons = self.new_fn([self.single_in(tt, tn, optional=r.random() < 0.5)] + (self.gen_params(None, 1, scope=isc) if r.random() < 0.25 else []), [])
+        self.invokers.append((cons, isc))
+        self.ops.append({"op": "invoke", "scope": isc, "fn": cons, "info": False})
+        if r.random() < 0.25:
+            self.op_provide()
+        if r.random() < 0.15:
+            self.ops.append({"op": "invoke", "scope": isc, "fn": cons, "info": False})
+        # now the missing piece, somewhere on the path from c to the root (mostly c itself)
+        ksc = c if r.random() < 0.6 else r.choice(self.anc(c))
+        self.plain_provide(ksc, [], kt, kn, export=r.random() < 0.15)
+        self.resolvable.append((ksc, kt, kn))
+        if r.random() < 0.2:
+            self.op_provide()
+        for _ in range(r.choice([1, 1, 2])):
+            self.ops.append({"op": "invoke", "scope": isc if r.random() < 0.8 else r.choice(below), "fn": cons, "info": False})
+
+    # ---- "retry": constructors / decorators scripted to fail first (error or panic, error result anywhere)
+    def op_retry_web(self):
+        r = self.r
+        sc = r.randrange(0, self.nscopes)
+        path = self.anc(sc)
+        (tt, tn) = self.fresh_key()
+        psc = r.choice(path)
+
+        def fail_first():
+            return [{"k": r.choice(["err", "err", "panic"]), "len": r.choice([1, 2]), "dt": r.randrange(0, 10), "eslot": r.choice([0, 1])},
+                    {"k": r.choice(["ok", "ok", "ok", "err"]), "len": r.choice([1, 2]), "dt": r.randrange(0, 10), "eslot": 0}]
+
+        # provider: T (and maybe a second value), error result at a random position
+        outs = [u(tt)] if not tn else [self.st([self.out_field(), self.field("R0", u(tt), {"name": tn})])]
+        extra = None
+        if r.random() < 0.4:
+            extra = self.fresh_key()
+            outs.append(u(extra[0]) if not extra[1] else self.st([self.out_field(), self.field("R1", u(extra[0]), {"name": extra[1]})]))
+        if r.random() < 0.7:
+            outs.insert(r.randrange(0, len(outs) + 1), u(0))
+        pf = self.new_fn([], outs)
+        if r.random() < 0.4:
+            self.script[str(pf)] = fail_first()
+        self.ops.append({"op": "provide", "scope": psc, "fn": pf, "name": "", "group": "", "as": [], "export": False,
+                         "cb": self.p("cb"), "info": False, "opts": []})
+        self.provided.append((psc, tt, tn)); self.resolvable.append((psc, tt, tn))
+        if extra:
+            self.provided.append((psc, extra[0], extra[1])); self.resolvable.append((psc, extra[0], extra[1]))
+        # decorator(s) of T on the path below the provider, results in any order with the error anywhere
+        below_p = [s for s in path if psc in self.anc(s)]
+        for dsc in r.sample(below_p, min(len(below_p), r.choice([1, 1, 2]))):
+            dins = [self.single_in(tt, tn)] if r.random() < 0.85 else []
+            douts = [u(tt)] if not tn else [self.st([self.out_field(), self.field("V", u(tt), {"name": tn})])]
+            if extra and r.random() < 0.5:
+                dins.append(self.single_in(extra[0], extra[1]))
+                douts.append(u(extra[0]) if not extra[1] else self.st([self.out_field(), self.field("W", u(extra[0]), {"name": extra[1]})]))
+                r.shuffle(douts)
+            if r.random() < 0.85:
+                douts.insert(r.randrange(0, len(douts) + 1), u(0))
+            df = self.new_fn(dins, douts)
+            self.script[str(df)] = fail_first()
+            self.ops.append({"op": "decorate", "scope": dsc, "fn": df, "cb": self.p("cb"), "info": False})
+        cons_in = [self.single_in(tt, tn, optional=r.random() < 0.2)]
+        if extra and r.random() < 0.5:
+            cons_in.append(self.single_in(extra[0], extra[1]))
+        cons = self.new_fn(cons_in, [])
+        self.invokers.append((cons, sc))
+        for _ in range(r.choice([2, 2, 3])):
+            self.ops.append({"op": "invoke", "scope": sc if r.random() < 0.8 else r.choice(path), "fn": cons, "info": False})
+            if r.random() < 0.15:
+                self.op_provide()
+
     def op_invoke(self):
         r = self.r
         scope = r.randrange(0, self.nscopes)
@@ -579,6 +699,12 @@ class Gen:
                 c = 1.0
             if r.random() < self.w["web"]:
                 self.op_group_web()
+                continue
+            if r.random() < self.w["late"]:
+                self.op_late_dep()
+                continue
+            if r.random() < self.w["retry"]:
+                self.op_retry_web()
                 continue
             if c < self.w["scope"] and self.nscopes < self.w["max_scopes"]:
                 par = r.randrange(0, self.nscopes)
